@@ -176,7 +176,7 @@ impl World {
             st.exec_count = vec![0; p.tasks.len()];
             st.done = vec![false; p.tasks.len()];
         }
-        let yields: Vec<&'static str> = ["process.after_parse", "process.after_execute", "app.static_matched"]
+        let yields: Vec<&'static str> = ["process.after_parse", "process.after_execute", "app.static_matched", "env"]
             .iter()
             .copied()
             .filter(|t| sc.yields.iter().any(|y| y == t))
